@@ -478,6 +478,15 @@ func c09Intervals(c *core.Ctx) {
 		if s != prefix+"[0s, 7d]" && bad == "" {
 			bad = fmt.Sprintf("operator %s over [0s, 7d] prints as %q, want %q", name, s, prefix+"[0s, 7d]")
 		}
+		// equal bounds: the operator syntax always takes two bounds (only an annotation may be shortened to one)
+		o.Fields["Interval"] = k.iv(k.DUR, int64(7*24*time.Hour), k.DUR, int64(7*24*time.Hour))
+		out, err = in.Call(op, o, nil)
+		if !runORD(c, rC09Ival, op.Name, op, err) {
+			return
+		}
+		if s2, _ := out[0].(string); s2 != prefix+"[7d, 7d]" && bad == "" {
+			bad = fmt.Sprintf("operator %s over the window [7d, 7d] prints as %q, want %q (the grammar's operator window has two bounds)", name, s2, prefix+"[7d, 7d]")
+		}
 		if !strings.Contains(readGrammarRaw(c), "'"+prefix+"'") && bad == "" {
 			bad = "the grammar has no token '" + prefix + "'"
 		}
